@@ -100,8 +100,10 @@ def prop_arms(F, exec_path):
         if vs == ["*"]:
             out["*"] = {"kind": "default", "body": a["body"], "line": a.get("line")}
             continue
-        info = {"line": a.get("line"), "body": a["body"]}
-        body = a["body"]
+        # helpers of the property module itself (a shared `payload_from(rawdata, start)`, a `cached_or_parse(..)`) are read
+        # as part of the arm; the protocol structs' own methods stay calls
+        body = H.inline_helpers(F, a["body"], max_size=400, skip=lambda c: not c.startswith("vm::pktprop::") or "exec_prop_" in c)
+        info = {"line": a.get("line"), "body": body, "raw_body": a["body"]}
         sets = [c for c in H.walk(body) if c.get("k") == "mcall" and c["m"].startswith("set_") and c.get("callee") in F.fns]
         gets = [c for c in H.walk(body) if c.get("k") == "mcall" and c["m"].startswith("get_") and c.get("callee") in F.fns
                 and not c["m"].endswith("_raw")]
@@ -122,6 +124,8 @@ def prop_arms(F, exec_path):
         elif skips or "rawdata" in H.render(body):
             info["kind"] = "payload"
             info["skip"] = H.render(H.strip(skips[0]["args"][0])) if skips else None
+            if info["skip"] == "0":
+                info["skip"] = None  # skipping nothing
         else:
             info["kind"] = "other"
         for v in vs:
